@@ -8,7 +8,7 @@ from vlib import refdt
 
 FMAX = sys.float_info.max
 
-SCALES = [0.1, 0.25, 0.001, 3, 1e6, 0.5, 1e-3, 7e-5]
+SCALES = [0.1, 0.25, 0.001, 3, 1e6, 0.5, 1e-3, 7e-5, 0.0009765625, 0.1234567]     # also scales with more than 6 significant digits
 ENUMS = [{'a': 1, 'b': 2}, {'off': 0, 'on': 1}, {'x': -3, 'y': 100, 'z': 7}, {'single': 5},
          {'lo': -2147483648, 'hi': 2147483647}, {'n0': 0, 'n1': 1, 'n2': 2, 'n5': 5, 'big': 1 << 40},
          {'idle': 100, 'busy': 300, 'error': 400},
@@ -205,7 +205,12 @@ def gen_valid(di, rng, stored=False):
         hi = di.get('maxchars', lo + 12)
         n = rng.choice([lo, hi if hi <= lo + 300 else lo + 300, rng.randint(lo, min(hi, lo + 8))])
         alpha = UTF_ALPHA if di.get('isUTF8') else ASCII_ALPHA
-        return ''.join(rng.choice(alpha) for _ in range(n))
+        txt = ''.join(rng.choice(alpha) for _ in range(n))
+        if n >= 2 and rng.random() < 0.15:
+            # white space at the ends belongs to the value
+            ws = rng.choice([' ', '\n', '\t', '  '])[:1]
+            txt = (ws + txt[1:]) if rng.random() < 0.5 else (txt[:-1] + ws)
+        return txt
     if t == 'blob':
         lo, hi = di.get('minbytes', 0), di['maxbytes']
         n = rng.choice([lo, hi, rng.randint(lo, hi)])
@@ -338,6 +343,10 @@ def mutate(di, v, rng, depth=0):
         c = ['a' * (lo - 1) if lo else 'a\0', 'ä' * max(lo, 1), 'x\0' + 'y' * lo]
         if hi is not None:
             c.append('b' * (hi + 1))
+            # too long, and full of characters that mean something to formatting code
+            c += [('100%' * (hi + 1))[:hi + 1], ('%s{0}%d' * (hi + 1))[:hi + 2], '%' * (hi + 1)]
+        if lo > 1:
+            c += ['%', '%s'[:lo - 1], '{}'[:lo - 1]]
         return rng.choice(c)
     elif t == 'blob' and r < 0.4:
         lo, hi = di.get('minbytes', 0), di['maxbytes']
